@@ -147,6 +147,9 @@ func Load(repo string, patterns []string) (*Program, error) {
 		if err != nil {
 			return err
 		}
+		if err := pc.expandImplements(); err != nil {
+			return err
+		}
 		prog.PC[pkgPath] = pc
 		var b strings.Builder
 		b.WriteString("//go:build verif\n\npackage " + pc.PkgName + "\n\n")
